@@ -172,6 +172,7 @@ package golang
 //@   requires cu != nil
 //@   ensures result == nil ==> cu.namingStyle != nil && cu.namingStyle == callret("styles.NewNamingStyle", 0) && callarg("styles.NewNamingStyle", 0) == value
 //@   ensures result == nil ==> ncalls("cu.namingStyle.UseInitialisms") == 1 && callarg("cu.namingStyle.UseInitialisms", 0) == cu.doInitialisms
+//@   ensures result == nil ==> callrecv("cu.namingStyle.UseInitialisms") == cu.namingStyle
 //@   ensures cu.doInitialisms == old(cu.doInitialisms)
 //@   modifies cu.namingStyle
 //@ func codeUtilsParams$package_prefix$action(value string, cu *CodeUtils) error
